@@ -29,7 +29,7 @@ META = {
         "highlight = node whose fill colour differs from the most common fill among state nodes (ties: differs from white)",
     ],
     "must_observe": ["graphs", "instance_graphs", "dot_json_readings", "edges_checked", "internal_checked"],
-    "shard_timeout": {"quick": 300, "thorough": 3400},
+    "shard_timeout": {"quick": 900, "thorough": 3400},
 }
 
 PROFILE = {"n_states": (1, 6), "n_events": (1, 4), "extra_transitions": (1, 7), "p_multi_event": 0.3,
